@@ -47,6 +47,10 @@ def parse_class(body):
                 s.add(ord(n))
             elif n in "tnrf":
                 s.add({"t": 9, "n": 10, "r": 13, "f": 12}[n])
+            elif n == "x":
+                s.add(int(body[i + 2:i + 4], 16))
+                i += 4
+                continue
             else:
                 raise Inconclusive("encoding not regenerable: escape \\%s in character class" % n)
             i += 2
@@ -100,7 +104,7 @@ def parse_plugin_regex(pat):
 
 def extract():
     src = read_repo(F_PLUGIN)
-    m = need(re.search(r'static OPERATION_REGEX: Lazy<Regex> =\s*Lazy::new\(\|\| Regex::new\(r"((?:[^"])*)"\)\.unwrap\(\)\);', src), "OPERATION_REGEX literal")
+    m = need(re.search(r'static OPERATION_REGEX: Lazy<Regex> =\s*Lazy::new\(\|\|\s*\{?\s*Regex::new\(r"((?:[^"])*)"\)\.unwrap\(\)\s*\}?\s*\);', src), "OPERATION_REGEX literal")
     pattern = m.group(1)
     fn = re.sub(r"\s+", " ", re.sub(r"//[^\n]*", "", extract_fn(src, "parse_iso_template_literal")))
     need(re.search(r"OPERATION_REGEX \.captures_iter\(first\.raw\.trim\(\)\) \.next\(\) \.map\(\|capture_group\| \{ (?:debug!\([^;]*\); )?ValidIsographTemplateLiteral \{ "
